@@ -92,12 +92,24 @@ impl BlockIndex {
 		ensures r is Ok ==> buf@.len() % 33 == 0
 			&& forall|i: int| 0 <= i < buf@.len() / 33 ==> decode_block(#[trigger] buf@.subrange(33 * i, 33 * i + 33)) is Some,
 			r is Ok ==> forall|i: int| 0 <= i < buf@.len() / 33 ==> r.unwrap().lookup@.contains_key(block_coord(decode_block(#[trigger] buf@.subrange(33 * i, 33 * i + 33)).unwrap())),
+			// nothing is invented: every listed block is the decoding of one of the records, filed under its own block coordinate
+			r is Ok ==> forall|k: TileCoord3| r.unwrap().lookup@.contains_key(k) ==> listed(buf@, buf@.len() as int / 33, #[trigger] r.unwrap().lookup@[k]) && block_coord(r.unwrap().lookup@[k]) == k,
 //@loop 1 iter=it
 			invariant obeys_key_model::<TileCoord3>(), buf@.len() == 33 * count, buf@.len() <= u64::MAX, it.index@ <= count,
 				forall|i: int| 0 <= i < it.index@ ==> decode_block(#[trigger] buf@.subrange(33 * i, 33 * i + 33)) is Some,
 				forall|i: int| 0 <= i < it.index@ ==> block_index.lookup@.contains_key(block_coord(decode_block(#[trigger] buf@.subrange(33 * i, 33 * i + 33)).unwrap())),
+				forall|k: TileCoord3| block_index.lookup@.contains_key(k) ==> listed(buf@, it.index@ as int, #[trigger] block_index.lookup@[k]) && block_coord(block_index.lookup@[k]) == k,
 //@loopstart 1
 			proof { assert(i * 33 + 33 <= count * 33) by (nonlinear_arith) requires i < count; }
+			let ghost vold = block_index.lookup@;
+//@loopend 1
+			proof {
+				let vb = decode_block(buf@.subrange(33 * (i as int), 33 * (i as int) + 33)).unwrap();
+				assert(listed(buf@, i as int + 1, vb));
+				assert forall|k: TileCoord3| block_index.lookup@.contains_key(k) implies listed(buf@, i as int + 1, #[trigger] block_index.lookup@[k]) && block_coord(block_index.lookup@[k]) == k by {
+					if k != block_coord(vb) { assert(vold.contains_key(k) && vold[k] == block_index.lookup@[k]); assert(listed(buf@, i as int, vold[k])); }
+				}
+			}
 //@end
 //@extract fn file="versatiles_container/src/container/versatiles/types/block_index.rs" scope="impl BlockIndex" name="as_blob"
 //@rewrite "block.as_blob()" => "block_as_blob(block)" R7
